@@ -335,6 +335,85 @@ fn run_for<S: Scanner>(chk: &Check, tier: Tier, timeouts: &[u64]) {
     }
 }
 
+/// Supplement (SAMPLING, not the deciding step): seeded random interleavings over the FULL alphabet
+/// on all 16 channels at once - one multi-channel scanner against 16 solo scanners. Aimed at what the
+/// exhaustive products cannot reach: four or more simultaneously active channels and arbitrary byte
+/// values. A difference found here is a real execution of the real code and is reported like any
+/// other violation (the artefact replays it from the seed).
+fn random_16ch<S: Scanner>(chk: &Check, seed: u64, steps: u64, timeout: u64) -> u64 {
+    let mut x = seed ^ 0x9E3779B97F4A7C15 ^ (S::NAME.len() as u64) << 32;
+    let mut rnd = move || {
+        x ^= x << 13;
+        x ^= x >> 7;
+        x ^= x << 17;
+        x
+    };
+    let mut now = 0u64;
+    set_clock(0);
+    let mut m = S::make(timeout);
+    let mut solo: Vec<S> = (0..16).map(|_| S::make(timeout)).collect();
+    let ctrls: Vec<u8> = (0..128u8).filter(|c| S::contributes(*c)).collect();
+    for k in 0..steps {
+        let r = rnd();
+        let c = (r & 15) as u8;
+        set_clock(now);
+        match (r >> 4) % 16 {
+            0 => {
+                // time passes
+                now += [1u64, 1, 2, 3, 1 << 20, (1 << 32) - 1][((r >> 8) % 6) as usize];
+            }
+            1 if S::POLLS => {
+                let a = m.poll_ch(c);
+                set_clock(now);
+                let b = solo[c as usize].poll_ch(c);
+                if a != b {
+                    chk.violate(Violation::new("same-as-solo-scanner", format!("C15/{}/same-as-solo-scanner/random-16-channels", S::NAME), format!("seed {} step {}: poll({}) returned {:?} in the 16-channel stream, {:?} in a scanner fed only that channel", seed, k, c, a, b)).with_case(format!("random16|{}|{}|{}", S::NAME, seed, k)));
+                    return k;
+                }
+            }
+            2 => {
+                if (r >> 8) % 64 == 0 {
+                    m.reset_all();
+                    for s in solo.iter_mut() {
+                        s.reset_all();
+                    }
+                }
+            }
+            3 => {
+                // system message or other channel message with suggestive data bytes
+                let st = if (r >> 8) & 1 == 0 { 0xF0 | ((r >> 9) & 15) as u8 } else { [0x80u8, 0x90, 0xA0, 0xC0, 0xD0, 0xE0][((r >> 9) % 6) as usize] | c };
+                let d1 = ctrls[((r >> 16) as usize) % ctrls.len()];
+                let msg = raw(st, d1, ((r >> 24) & 127) as u8);
+                let a = m.feed_msg(&msg);
+                if st < 0xF0 {
+                    set_clock(now);
+                    let b = solo[c as usize].feed_msg(&msg);
+                    if a != b {
+                        chk.violate(Violation::new("same-as-solo-scanner", format!("C15/{}/same-as-solo-scanner/random-16-channels", S::NAME), format!("seed {} step {}: feeding ({:#04X},{},..) returned {:?} vs solo {:?}", seed, k, st, d1, a, b)).with_case(format!("random16|{}|{}|{}", S::NAME, seed, k)));
+                        return k;
+                    }
+                } else if a[0].is_some() || a[1].is_some() {
+                    chk.violate(Violation::new("system-message-reports-nothing", format!("C15/{}/system-message-reports-nothing/random-16-channels", S::NAME), format!("seed {} step {}: system message ({:#04X},{},..) reported {:?}", seed, k, st, d1, a)).with_case(format!("random16|{}|{}|{}", S::NAME, seed, k)));
+                    return k;
+                }
+            }
+            _ => {
+                let ctrl = ctrls[((r >> 8) as usize) % ctrls.len()];
+                let val = ((r >> 20) & 127) as u8;
+                let msg = cc(c, ctrl, val);
+                let a = m.feed_msg(&msg);
+                set_clock(now);
+                let b = solo[c as usize].feed_msg(&msg);
+                if a != b || a.iter().flatten().any(|t| t[0] != c as u32) {
+                    chk.violate(Violation::new("same-as-solo-scanner", format!("C15/{}/same-as-solo-scanner/random-16-channels", S::NAME), format!("seed {} step {}: feeding CC #{} ={} on channel {} returned {:?} in the 16-channel stream, {:?} in a scanner fed only that channel", seed, k, ctrl, val, c, a, b)).with_case(format!("random16|{}|{}|{}", S::NAME, seed, k)));
+                    return k;
+                }
+            }
+        }
+    }
+    steps
+}
+
 pub fn run_c15(chk: &Check, tier: Tier) {
     chk.rule("for each unordered channel pair {a,b} (quick: the 8 pairs {c,c+8} plus 6 adjacent/extreme pairs; thorough: all 120) and each of the three scanners: reachability fixpoint of the triple (M fed everything, A fed only a, B fed only b) under contributing Control Changes with a distinct value per channel, system messages F0-FF whose data bytes look like (N)RPN/14-bit traffic (shown to M only), traffic and polls on a third channel (M only), polls of a and b, 1 ms ticks, reset; on every transition M's report for a channel equals the solo scanner's and carries that channel; system messages report nothing. The product is symmetric in a and b, so unordered pairs cover ordered ones. In addition, for a few channel TRIPLES (quick: (0,8,15) and (7,8,9); thorough: six) the product of M with three solo scanners, all three channels active at once");
     chk.assume("per-channel byte domain of one value (leakage shows as a foreign value); polling scanner with timeout 2 ms (and 0 ms in the thorough tier)");
@@ -346,5 +425,16 @@ pub fn run_c15(chk: &Check, tier: Tier) {
     run_triples::<helgoboss_midi::ParameterNumberMessageScanner>(chk, tier, 0);
     #[cfg(feature = "polling")]
     run_triples::<helgoboss_midi::PollingParameterNumberMessageScanner>(chk, tier, 2);
+    // supplementary sampling (labelled; never the deciding step)
+    let steps: u64 = if tier.thorough() { 20_000_000 } else { 1_000_000 };
+    let mut done = 0u64;
+    done += random_16ch::<helgoboss_midi::ControlChange14BitMessageScanner>(chk, chk.seed, steps, 0);
+    done += random_16ch::<helgoboss_midi::ParameterNumberMessageScanner>(chk, chk.seed, steps, 0);
+    #[cfg(feature = "polling")]
+    {
+        done += random_16ch::<helgoboss_midi::PollingParameterNumberMessageScanner>(chk, chk.seed, steps, 2);
+        done += random_16ch::<helgoboss_midi::PollingParameterNumberMessageScanner>(chk, chk.seed.wrapping_add(1), steps, 0);
+    }
+    chk.set("supplementary_sampling", json!({"what": "seeded random 16-channel interleavings over the full alphabet, multi-channel scanner vs 16 solo scanners (SAMPLING; not part of the exhaustive claim)", "seed": chk.seed, "steps": done}));
     chk.sample(json!({"pair": [5, 13], "interleaving": ["cc ch5 #99 =1", "cc ch13 #99 =2", "cc ch5 #98 =1", "F2 6 38 (system)", "cc ch13 #6 =2", "cc ch5 #6 =1", "tick", "tick", "poll(5) -> NRPN-7bit(ch 5, 129, 1) in both M and the solo scanner"]}));
 }
